@@ -49,19 +49,23 @@ class OpenIDHybridGrant(OpenIDImplicitGrant):
         raise NotImplementedError()
 
     def validate_authorization_request(self):
-        if not is_openid_scope(self.request.scope):
-            raise InvalidScopeError(
-                "Missing 'openid' scope",
-                redirect_uri=self.request.redirect_uri,
-                redirect_fragment=True,
-            )
         self.register_hook(
             "after_validate_authorization_request",
             lambda grant: validate_nonce(
                 grant.request, grant.exists_nonce, required=True
             ),
         )
-        return validate_code_authorization_request(self)
+        # the client and its redirect URI are validated first, so that the
+        # error below is only ever sent to a registered redirect URI
+        redirect_uri = validate_code_authorization_request(self)
+        if not is_openid_scope(self.request.scope):
+            raise InvalidScopeError(
+                "Missing 'openid' scope",
+                state=self.request.state,
+                redirect_uri=redirect_uri,
+                redirect_fragment=True,
+            )
+        return redirect_uri
 
     def create_granted_params(self, grant_user):
         self.request.user = grant_user
